@@ -3,6 +3,7 @@
 #include "../../../../common/debug_messages.h"
 #include "../../core/interpreter.h"
 #include "../../evaluator/functions/generic_instantiation.h"
+#include "enums.h"
 #include <algorithm>
 #include <sstream>
 
@@ -595,10 +596,19 @@ InterfaceOperations::find_impl_for_struct(const std::string &struct_name,
                                     // argument tuple: in the shared generic
                                     // node, parameters and locals declared T
                                     // have no type of their own
+                                    auto is_generic_enum =
+                                        [this](const std::string &name) {
+                                            const EnumDefinition *enum_def =
+                                                interpreter_->get_enum_manager()
+                                                    ->get_enum_definition(name);
+                                            return enum_def &&
+                                                   enum_def->is_generic;
+                                        };
                                     instantiated_impl_nodes_.push_back(
                                         GenericInstantiation::
                                             instantiate_generic_impl_method(
-                                                arg.get(), type_map));
+                                                arg.get(), type_map,
+                                                is_generic_enum));
                                     new_impl.methods.push_back(
                                         instantiated_impl_nodes_.back().get());
                                     debug_msg(DebugMsgId::GENERIC_DEBUG,
